@@ -184,7 +184,13 @@ static void mutate_tree(void)
         case 7: f->data.n = 0; f->data.b[0] = 0; vh_count("empty_files", 1); break;                                  /* empty file */
         case 8: {                                                                                                   /* magic line removed / damaged */
             char *nl = memchr(f->data.b, '\n', f->data.n);
-            int how = (int) vh_below(5);
+            int how = (int) vh_below(7);
+            if (how >= 5 && nl && nl > f->data.b + 9) {       /* a version with a digit/letter run around the 128-byte scratch buffers of the version comparison */
+                size_t at = 8; int run = (int) vh_range(120, 140); char c = how == 5 ? '7' : 'v';
+                for (int i = 0; i < run; i++) buf_insert(&f->data, at, &c, 1);
+                vh_count("magic_long_runs", 1);
+                break;
+            }
             if (nl && how == 0) { size_t k = (size_t) (nl - f->data.b) + 1; memmove(f->data.b, f->data.b + k, f->data.n - k + 1); f->data.n -= k; }
             else if (how == 1 && f->data.n > 3) f->data.b[1] = 'L';
             else if (how == 2 && nl) { *nl = ' '; }
@@ -213,7 +219,7 @@ static void mutate_tree(void)
         case 12: { for (int i = 0; i < 8 && f->data.n; i++) f->data.b[vh_below(f->data.n)] = (char) vh_below(256); break; }   /* byte flips */
         case 13: if (f->data.n) { f->data.n = vh_below(f->data.n); f->data.b[f->data.n] = 0; } break;                 /* truncation */
         case 14: { int n = (int) vh_range(3, 400); for (int i = 0; i < n; i++) insert_line(f, "end"); break; }
-        case 15: { static const char *P[] = { "x ${", "x $(", "x \\", "x %", "x ${AAAAAAAAAAAAAAAAAAAAAAAAAAAAAAAAAAAAAAAAAAAAAAAAAAAAAAAAAAAAAAAAAAAAAAAAAAAAAAAAAAAAAAAAAAAAAAAAAAAAAAAAAAAAAAAAAAAAAAAAAAAAAAAAAAAAAAAAAAAAAAAAAAAAAAAAAAAAAAAAAAAAAAAAAAAAA}", "x '\\", "x %get(", "x %put(a", "x %random()", "x %dirscan()", "x %dirscan(.)", "x %dirscan(/nonexistent)", "x %get()", "x %put()", "x %put(a b c)", "x %get(a b c)", "x ~ $HOME ${HOME} $(HOME)" }; insert_line(f, P[vh_below(17)]); vh_count("expander_edge_lines", 1); break; }
+        case 15: { static const char *P[] = { "x ${", "x $(", "x \\", "x %", "x ${AAAAAAAAAAAAAAAAAAAAAAAAAAAAAAAAAAAAAAAAAAAAAAAAAAAAAAAAAAAAAAAAAAAAAAAAAAAAAAAAAAAAAAAAAAAAAAAAAAAAAAAAAAAAAAAAAAAAAAAAAAAAAAAAAAAAAAAAAAAAAAAAAAAAAAAAAAAAAAAAAAAAAAAAAAAAA}", "x '\\", "x %get(", "x %put(a", "x %random()", "x %dirscan()", "x %dirscan(.)", "x %dirscan(/nonexistent)", "x %get()", "x %put()", "x %put(a b c)", "x %get(a b c)", "x ~ $HOME ${HOME} $(HOME)", "x %dirscan(dfull)", "%dirscan(dfull) %dirscan(dfull)" }; { int pk = (int) vh_below(19); if (pk >= 17) vh_count("dirscan_full_buffer_lines", 1); insert_line(f, P[pk]); } vh_count("expander_edge_lines", 1); break; }
         case 16: { cx_buf l = { 0 }; gen_random_bytes(&l, (int) vh_range(1, 200), 1); for (size_t i = 0; i < l.n; i++) if (l.b[i] == '\n') l.b[i] = ' '; insert_line(f, l.b); cx_buf_free(&l); break; }
         case 17: insert_line(f, "\r"); insert_line(f, " \v\f\r "); break;
         case 18: { cx_buf l = { 0 }; gen_random_bytes(&l, (int) vh_range(1, 400), 0); buf_insert(&f->data, line_boundary(&f->data, 1), l.b, l.n); cx_buf_free(&l); break; }
@@ -543,6 +549,9 @@ int main(int argc, char **argv)
     cx_env_on = 1;
     snprintf(magic, sizeof magic, "<%s-%s>\n", libast_program_name, libast_program_version);
     mkdir("tmp", 0700);
+    /* a directory whose file names fill the %dirscan result buffer exactly (5 bytes per name: the 4096th name lands on the last byte) */
+    mkdir("dfull", 0700);
+    for (int i = 0; i < 5000; i++) { char nm[32]; snprintf(nm, sizeof nm, "dfull/%04d", i); int fd = open(nm, O_CREAT | O_WRONLY, 0600); if (fd >= 0) close(fd); }
     cx_log_reset();
     cx_fd_snapshot();
     /* warm-up: let libc make its one-time allocations before any heap balance is taken */
@@ -564,7 +573,7 @@ int main(int argc, char **argv)
             /* per-case scratch: remove everything but the tmp directory */
             {
                 DIR *d = opendir(".");
-                if (d) { struct dirent *e; while ((e = readdir(d))) { if (e->d_name[0] == '.' && (!e->d_name[1] || e->d_name[1] == '.')) continue; if (!strcmp(e->d_name, "tmp")) continue; struct stat sb; if (!lstat(e->d_name, &sb) && S_ISDIR(sb.st_mode)) { cx_rm_contents(e->d_name, 1); rmdir(e->d_name); } else unlink(e->d_name); } closedir(d); }
+                if (d) { struct dirent *e; while ((e = readdir(d))) { if (e->d_name[0] == '.' && (!e->d_name[1] || e->d_name[1] == '.')) continue; if (!strcmp(e->d_name, "tmp") || !strcmp(e->d_name, "dfull")) continue; struct stat sb; if (!lstat(e->d_name, &sb) && S_ISDIR(sb.st_mode)) { cx_rm_contents(e->d_name, 1); rmdir(e->d_name); } else unlink(e->d_name); } closedir(d); }
                 if (tmp_dirty) { cx_rm_contents("tmp", 0); tmp_dirty = 0; }
             }
             cx_files_reset(); cx_log_reset();
